@@ -1907,6 +1907,7 @@ func execSched(r *verifsim.Run, sc *cScenario, opt cSchedOpts) *cSchedResult {
 			}
 			var loopTask *verifsim.Task
 			curConn := 0
+			loopEnded := false
 			inProcess := false
 			nProc := 0
 			var curCn *cConn
@@ -1934,6 +1935,7 @@ func execSched(r *verifsim.Run, sc *cScenario, opt cSchedOpts) *cSchedResult {
 				s.Between = func(s *verifsim.Sched) { opt.Observe(s, outDir, res) }
 			}
 			loopTask = s.Go("frame-loop", func() {
+				defer func() { loopEnded = true }()
 				var conf *Config
 				for ci, cn := range sc.Conns {
 					curConn = ci
@@ -1989,7 +1991,17 @@ func execSched(r *verifsim.Run, sc *cScenario, opt cSchedOpts) *cSchedResult {
 				s.Go(fmt.Sprintf("client%d", ci), func() {
 					last := -1
 					for k := range opt.ReqGaps[ci] {
-						verifsim.SleepSteps(opt.ReqGaps[ci][k])
+						if g := opt.ReqGaps[ci][k]; g >= 0 {
+							verifsim.SleepSteps(g)
+						} else {
+							// a gap counted in frames: wait until the frame loop has finished -g more frames (or has ended).
+							// (The step clock runs ahead whenever the loop waits for the camera, so gaps in steps bunch
+							// all requests at the start of a run.)
+							target := len(res.DoneStep) - g
+							for len(res.DoneStep) < target && !loopEnded {
+								verifsim.SleepSteps(7)
+							}
+						}
 						rq := cRequest{Kind: opt.ReqKinds[ci][k], Client: ci, Invoke: s.Steps, Value: -1, Conn: curConn}
 						switch rq.Kind {
 						case 's':
@@ -1999,6 +2011,9 @@ func execSched(r *verifsim.Run, sc *cScenario, opt cSchedOpts) *cSchedResult {
 							} else if f != nil {
 								rq.Value, rq.Torn = uniformValue(f)
 								rq.FrameNum = f.Status.FrameCount
+								if last >= 0 && rq.FrameNum < last {
+									r.Probe("snapshot-frame-counter-restarted-after-reconnect")
+								}
 								last = f.Status.FrameCount
 							}
 						case 't':
